@@ -414,7 +414,7 @@ func c07ContentTypes() []c07Req {
 }
 
 func c07Jobs(tier string) []string {
-	jobs := []string{"ctypes", "batches", "multipart", "json:1", "json:2", "json:3", "json:4", "json:5", "rawshort"}
+	jobs := []string{"ctypes", "batches", "multipart", "documents", "sizes", "json:1", "json:2", "json:3", "json:4", "json:5", "rawshort"}
 	for _, a := range c07Alphabet {
 		for _, b := range c07Alphabet {
 			jobs = append(jobs, "raw5:"+a+b)
@@ -495,6 +495,7 @@ func init() {
 		Rule: "grammars enumerated exhaustively: (raw) every string of length <=5 (thorough <=6) over the alphabet [ ] { } \" : , space a 1 n as application/json body; (json) every JSON tree with <=5 (6) nodes over " +
 			"{null,true,1,\"\",valid query,invalid query,[],{}} with object keys {query,variables,operationName,x}; (ctypes) content types; (batches) every batch of length <=3 over {valid, invalid, introspection, ambiguous document, mutation}; (multipart) operations single/batch x maps with <=2 files x <=2 paths over a 22-path alphabet, " +
 			"missing file parts, malformed map/operations; (corner) every valid operation with <=3 fields on corner-case schemas; oracle: process alive, handler returned, JSON body with data and/or errors, status in {200,422} " +
+			"(documents) 43 odd GraphQL documents (only ignored tokens, only a fragment, several anonymous or equally named operations, trailing garbage, BOM, type-system definitions, other operation kinds) x 5 operationName values, alone and in a batch next to a valid operation; (sizes) undecodable bodies, padded valid requests, huge invalid names and huge answers from 1 KiB to 1.1 MiB, each followed by the canonical request; " +
 			"with a three-valued reference (must-422 / must-200 / either), and a canonical follow-up request still answered correctly; non-trivial = the request reached decoding",
 		Assumptions: []string{"POST only (other methods are routed elsewhere by Handler)", "grey zone (either status): duplicate or case-variant keys, case-variant media types, duplicate map paths",
 			"the three-valued status reference is harness code (c07ExpectJSON, pathOK)"},
@@ -549,6 +550,40 @@ func init() {
 					}
 				}
 				rec(nil)
+			case job == "documents":
+				// well-formed request objects around odd GraphQL documents: nothing but ignored tokens,
+				// only a fragment, several anonymous / equally named operations, trailing garbage, a BOM, other
+				// operation kinds - each alone, in a batch next to a valid operation, with every operationName
+				docs := []string{" ", "\n", "\t", "#", "# only a comment\n", ",", ",,,", "\ufeff", "fragment F on Query { echo }", "{", "}", "{ }", "query", "query Q", "query Q { }",
+					"{ echo } # trailing comment", "{ echo } }", "{ echo } { echo }", "query A { echo } query A { echo }", "query A { echo } fragment F on Query { echo }",
+					"\ufeff{ echo }", "subscription { nope }", "mutation { nope }", "mutation", "{ echo(x: ) }", "{ ...F }", "{ ... on Query { echo } }", "query ($v: Int) { echo }",
+					"query ($v: Nope) { echo }", "{ echo @skip }", "{ echo @skip(if: true) }", "{ __typename }", "{ __typename @skip(if: true) }", "extend type Query { x: Int }", "type T { x: Int }", "schema { query: Query }",
+					`"a string"`, "null", "123", "[]", "{ echo: echo: echo }", "{ a: }", "query { echo } mutation { incr(by: 1) }"}
+				for _, d := range docs {
+					for _, on := range []string{"-", "", "Q", "A", "F"} {
+						m := map[string]interface{}{"query": d}
+						if on != "-" {
+							m["operationName"] = on
+						}
+						b, _ := json.Marshal(m)
+						reqs = append(reqs, c07Req{Method: "POST", ContentType: "application/json", Body: string(b), Expect: 200, Kind: "document"})
+						bb, _ := json.Marshal([]interface{}{map[string]interface{}{"query": c07ValidQ}, m})
+						reqs = append(reqs, c07Req{Method: "POST", ContentType: "application/json", Body: string(bb), Expect: 200, Kind: "batch"})
+					}
+				}
+			case job == "sizes":
+				// size thresholds (pooled / fixed-size buffers): large undecodable bodies, large valid requests, large answers
+				for _, n := range []int{1 << 10, 4 << 10, 33 << 10, 70 << 10, 300 << 10, 1100 << 10} {
+					reqs = append(reqs, c07Req{Method: "POST", ContentType: "application/json", Body: strings.Repeat("a", n), Expect: 422, Kind: "size"})
+					reqs = append(reqs, c07Req{Method: "POST", ContentType: "application/json", Body: `{"query":"` + strings.Repeat(" ", n) + c07ValidQ + `"}`, Expect: 200, Kind: "size"})
+					reqs = append(reqs, c07Req{Method: "POST", ContentType: "application/json", Body: `{"query":"{ nope` + strings.Repeat("x", n) + ` }"}`, Expect: 200, Kind: "size"})
+					var al strings.Builder
+					for i := 0; al.Len() < n/4; i++ {
+						fmt.Fprintf(&al, " a%d: echo", i)
+					}
+					reqs = append(reqs, c07Req{Method: "POST", ContentType: "application/json", Body: `{"query":"{` + al.String() + ` }"}`, Expect: 200, Kind: "size"})
+					reqs = append(reqs, c07Req{Method: "POST", ContentType: "application/json", Body: `{"query":"` + c07ValidQ + `"}`, Expect: 200, Kind: "size"})
+				}
 			case strings.HasPrefix(job, "json:"):
 				n, _ := strconv.Atoi(job[5:])
 				for _, t := range jsonTrees(n, map[int][]string{}) {
@@ -622,7 +657,7 @@ func init() {
 						chk(m)
 					}
 				}
-				if i%16 == 0 || len(sigs) > 0 {
+				if i%16 == 0 || len(sigs) > 0 || rq.Kind == "size" || rq.Kind == "document" {
 					fo := f.Run(follow)
 					if fs := c01Sigs(fo); len(fs) > 0 {
 						sigs = append(sigs, "follow-up request differs from its reference: "+fs[0])
